@@ -28,7 +28,11 @@ type Stats struct {
 	Points                                   []string
 }
 
-var atomicMethods = map[string]bool{"Load": true, "Store": true, "CompareAndSwap": true, "Swap": true, "Add": true, "Do": true}
+var atomicMethods = map[string]bool{"Load": true, "Store": true, "CompareAndSwap": true, "Swap": true, "Add": true, "Do": true,
+	// file operations that have no shim of their own: a scheduling point before the
+	// statement (there is no type information here: time.Time.Truncate gets one too,
+	// which is harmless)
+	"Truncate": true, "Sync": true, "Chmod": true, "ReadAt": true}
 var plainFuncs = map[string]bool{"munmap": true, "memmap": true}
 
 var osShim = map[string]string{
@@ -39,7 +43,7 @@ var osShim = map[string]string{
 var syscallShim = map[string]string{"Mmap": "SyscallMmap", "Munmap": "SyscallMunmap"}
 var httpShim = map[string]string{"Post": "HTTPPost"}
 var randShim = map[string]string{"Read": "CryptoRandRead"}
-var methodShim = map[string]string{"Stat": "FStat", "Close": "FClose", "Write": "FWrite", "WriteAt": "FWriteAt", "Truncate": "FTruncate"}
+var methodShim = map[string]string{"Stat": "FStat", "Close": "FClose", "Write": "FWrite", "WriteAt": "FWriteAt"}
 
 type rw struct {
 	opt     Options
@@ -405,7 +409,7 @@ func arityOK(name string, n int) bool {
 	switch name {
 	case "Stat", "Close":
 		return n == 0
-	case "Write", "Truncate":
+	case "Write":
 		return n == 1
 	case "WriteAt":
 		return n == 2
